@@ -39,6 +39,9 @@ class SetupCfgWriter(DependencyWriter):
 
         with open(self.path, "r", encoding="utf-8") as f:
             original_lines = f.readlines()
+        if original_lines and not original_lines[-1].endswith("\n"):
+            # Otherwise a dependency added after the last line would be glued to it
+            original_lines[-1] += "\n"
 
         if not (
             new_lines := self.build_new_lines(
